@@ -1,10 +1,11 @@
 """C17 — all peers agree on who owns a subscriber."""
 import verif as V
+import poolrace
 import locks
 
 PROP = "C17"
 SPEC = ["Bng.Spec.C17"] + ["Bng.Spec.C17Locks"]
-MON = ["agree", "minimal", "perm", "head", "hminimal", "single"]
+MON = ["agree", "minimal", "perm", "head", "hminimal", "single", "addr", "churn"]
 COMPS = [
     V.Component("rendezvous", monitors=MON),
 ]
@@ -27,7 +28,12 @@ ASSUME = [
     "on the real code (KNOWN-FINDING, witness split_view_witness); the monitor compares answers of pools with the same peer set whatever their views",
     "end-to-end forwarding runs over an in-memory http.RoundTripper into the peers' real handlers, not over loopback sockets",
     "each PeerPool method is one atomic step (p.mu / healthMu); node ids are arbitrary byte strings",
+    "getPeerAddr: PeerPool.peers is modelled as NewPeerPool leaves it when the caller's Peers slice has no spare capacity (cfgPeersAfterNew; the harness clips the slice); the transport reaches a node under its id and under <id>:8081, first registration wins",
+    "concurrent readers against AddPeer/RemovePeer (op churn; race pass: harness rebuilt with -race, RV_STRESS=1): every owner / serving node / ranked list a reader saw must be the model's answer for one of the memberships the writer went through; any report of the race detector is a violation; the interleaving itself is the scheduler's",
 ]
+
+# readers (GetOwner, healthy owner, ranked list, Allocate) against a writer (RemovePeer/AddPeer) under the Go race detector
+RACE = poolrace.make(PROP, MON, stress=[("rendezvous", "rendezvous")], envvar="RV_STRESS", label="rendezvous churn")
 ASSUME = ASSUME + [locks.ASSUME]
 
 
